@@ -143,6 +143,14 @@ class State(object):
         s.switch = False
         s.watch = {}         # object base -> [lo, hi, set(written offsets), tag]
         s.cmodel = None      # concolic mode: concrete witness {var name: value} whose path is followed
+        s.preempts = 0
+        s.sync_points = 0
+        s.preempt_pending = False
+        s.force_next = None
+        s.vc = {}            # tid -> {tid: clock}   (happens-before)
+        s.sync_vc = {}       # sync object address -> vector clock released there
+        s.shadow = {}        # (base, off) -> [write (tid, clk) | None, {tid: clk} reads]
+        s.sched_log = []
 
     def fork(s):
         n = State.__new__(State)
@@ -177,6 +185,14 @@ class State(object):
         n.switch = s.switch
         n.watch = {k: [v[0], v[1], set(v[2]), v[3]] for k, v in s.watch.items()}
         n.cmodel = s.cmodel
+        n.preempts = s.preempts
+        n.sync_points = s.sync_points
+        n.preempt_pending = False
+        n.force_next = None
+        n.vc = {k: dict(v) for k, v in s.vc.items()}
+        n.sync_vc = {k: dict(v) for k, v in s.sync_vc.items()}
+        n.shadow = {k: [v[0], dict(v[1])] for k, v in s.shadow.items()} if s.shadow else {}
+        n.sched_log = list(s.sched_log)
         return n
 
     # ---- objects
@@ -329,11 +345,16 @@ class Executor(object):
         s.string_cache = {}
         s.trace_mem = None
         s.hooks = {}
+        s.races_seen = set()
         s.stop_on_assert = False
         s.reached = {}
         s.on_path_end = None
         s.keep_states = True
         s.max_wall = 0
+        s.atomic_now = False
+        s.preempt_bound = 0
+        s.preempt_range = None
+        s.race_detect = False
         s.tape = None
         s.concolic_tape = None
         s.alloc_policy = None
@@ -438,6 +459,21 @@ class Executor(object):
         disp = s.dispatch
         while True:
             th = st.threads[st.cur]
+            if st.preempt_pending:
+                st.preempt_pending = False
+                st.sync_points += 1
+                k = st.sync_points
+                if st.preempts < s.preempt_bound and th.status == 'run' and th.frames and \
+                        (s.preempt_range is None or s.preempt_range[0] <= k < s.preempt_range[1]):
+                    for t in st.threads:
+                        if t.tid != th.tid and t.status == 'run' and t.frames:
+                            o = st.fork()
+                            o.preempts += 1
+                            o.switch = True
+                            o.force_next = t.tid
+                            o.sched_log.append((k, th.tid, t.tid))
+                            work.append(o)
+                            s.forks += 1
             if th.status != 'run' or not th.frames or st.switch:
                 s.schedule(st)
                 continue
@@ -472,9 +508,13 @@ class Executor(object):
             if th.tid == 0:
                 raise PathEnd('ok', '')
             # wake joiners
+            if s.race_detect:
+                s.vc_release(st, th.tid, ('t', th.tid))
             for t in st.threads:
                 if t.status == 'join' and t.wait == th.tid:
                     t.status = 'run'
+                    if s.race_detect:
+                        s.vc_acquire(st, t.tid, ('t', th.tid))
         st.switch = False
         for _ in range(2 * n + 2):
             runnable = [t.tid for t in st.threads if t.status == 'run' and t.frames]
@@ -482,12 +522,18 @@ class Executor(object):
                 blocked = [(t.tid, t.name, t.status, t.wait) for t in st.threads if t.status != 'done']
                 raise PathEnd('deadlock', 'all threads blocked: %r' % (blocked,))
             pick = None
-            for k in range(1, n + 1):
-                c = (st.cur + k) % n
-                t = st.threads[c]
+            if st.force_next is not None:
+                t = st.threads[st.force_next]
+                st.force_next = None
                 if t.status == 'run' and t.frames:
                     pick = t
-                    break
+            if pick is None:
+                for k in range(1, n + 1):
+                    c = (st.cur + k) % n
+                    t = st.threads[c]
+                    if t.status == 'run' and t.frames:
+                        pick = t
+                        break
             if pick.relock is not None:
                 m = pick.relock
                 if st.mutex.get(m) is None:
@@ -495,6 +541,8 @@ class Executor(object):
                     h = st.locks_held.setdefault(pick.tid, set())
                     h.add(m)
                     pick.relock = None
+                    if s.race_detect:
+                        s.vc_acquire(st, pick.tid, ('m', m))
                 else:
                     pick.status = 'mutex'
                     pick.wait = m
@@ -699,6 +747,8 @@ class Executor(object):
                     w = st.watch.get(o.base)
                     if w is not None:
                         w[2].update(range(off, off + n))
+                if s.race_detect and len(st.threads) > 1:
+                    s.race_check(st, o, off, n, write)
                 if s.trace_mem is not None:
                     s.trace_mem(st, o, off, n, write)
                 return o, off
@@ -708,6 +758,73 @@ class Executor(object):
         if addr < 4096:
             s.memerr(st, 'null pointer %s (address 0x%x)' % ('write' if write else 'read', addr))
         s.memerr(st, 'wild %s of %d bytes at 0x%x' % ('write' if write else 'read', n, addr))
+
+    # ---- happens-before race detection (vector clocks; mutexes, thread create/join and atomics synchronise)
+    def vc_of(s, st, tid):
+        v = st.vc.get(tid)
+        if v is None:
+            v = {tid: 1}
+            st.vc[tid] = v
+        return v
+
+    def vc_release(s, st, tid, key):
+        v = s.vc_of(st, tid)
+        cur = st.sync_vc.get(key)
+        if cur is None:
+            st.sync_vc[key] = dict(v)
+        else:
+            for k, c in v.items():
+                if cur.get(k, 0) < c:
+                    cur[k] = c
+        v[tid] = v.get(tid, 0) + 1
+
+    def vc_acquire(s, st, tid, key):
+        src = st.sync_vc.get(key)
+        if src is None:
+            return
+        v = s.vc_of(st, tid)
+        for k, c in src.items():
+            if v.get(k, 0) < c:
+                v[k] = c
+
+    def race_check(s, st, o, off, n, write):
+        tid = st.threads[st.cur].tid
+        if s.atomic_now:
+            key = ('a', o.base, off)
+            # atomic accesses synchronise (sequentially consistent in the sources)
+            s.vc_acquire(st, tid, key)
+            if write:
+                s.vc_release(st, tid, key)
+            return
+        v = s.vc_of(st, tid)
+        key = (o.base, off)
+        sh = st.shadow.get(key)
+        if sh is None:
+            st.shadow[key] = [(tid, v.get(tid, 0)) if write else None, {} if write else {tid: v.get(tid, 0)}]
+            return
+        w = sh[0]
+        if w is not None and w[0] != tid and v.get(w[0], 0) < w[1]:
+            s.report_race(st, o, off, n, 'write by thread %d' % w[0], 'write' if write else 'read', tid)
+        if write:
+            for rt, rc in sh[1].items():
+                if rt != tid and v.get(rt, 0) < rc:
+                    s.report_race(st, o, off, n, 'read by thread %d' % rt, 'write', tid)
+            sh[0] = (tid, v.get(tid, 0))
+            sh[1] = {}
+        else:
+            sh[1][tid] = v.get(tid, 0)
+
+    def report_race(s, st, o, off, n, other, kind, tid):
+        th = st.threads[st.cur]
+        where = th.frames[-1].fn.name if th.frames else ''
+        msg = 'data race: %s of %d bytes at offset %d of %s object %s (%d bytes) by thread %s in %s, unordered with a %s' % (
+            kind, n, off, o.kind, o.name, o.size, th.name or tid, where, other)
+        k = (o.name, off, where)
+        if k in s.races_seen:
+            return
+        s.races_seen.add(k)
+        s.violations.append(Violation('race', msg, s.model_for(st), list(st.inputs), s.where(st),
+                                      extra=dict(schedule=list(st.sched_log))))
 
     def sym_addr_check(s, st, addr, n):
         """a symbolic address must stay inside the object its constant part points to"""
@@ -1061,16 +1178,21 @@ class Executor(object):
             regs[dst] = (base + coff) & M64
 
     def i_load(s, st, th, fr, ins):
-        _, dst, a, n, w = ins
+        _, dst, a, n, w, atomic = ins
         if type(a) is str:
             a = fr.regs[a]
-        v = s.load(st, a, n)
+        if atomic:
+            s.atomic_now = True
+            v = s.load(st, a, n)
+            s.atomic_now = False
+        else:
+            v = s.load(st, a, n)
         if w is not None and w < 8 * n:
             v = X.trunc(v, w)
         fr.regs[dst] = v
 
     def i_store(s, st, th, fr, ins):
-        _, _, a, v, n, w = ins
+        _, _, a, v, n, w, atomic = ins
         regs = fr.regs
         if type(a) is str:
             a = regs[a]
@@ -1078,7 +1200,12 @@ class Executor(object):
             v = regs[v]
         if type(v) is list:
             raise PathEnd('unsupported', 'aggregate store')
-        s.store(st, a, v, n)
+        if atomic:
+            s.atomic_now = True
+            s.store(st, a, v, n)
+            s.atomic_now = False
+        else:
+            s.store(st, a, v, n)
 
     def i_alloca(s, st, th, fr, ins):
         _, dst, z, n = ins
@@ -1254,12 +1381,14 @@ class Executor(object):
             a = regs[a]
         if type(v) is str:
             v = regs[v]
+        s.atomic_now = True
         old = s.load(st, a, n)
         if aop == 'xchg':
             new = v
         else:
             new = BINF[aop](old, v, w)
         s.store(st, a, new, n)
+        s.atomic_now = False
         if dst is not None:
             regs[dst] = old
 
@@ -1272,12 +1401,16 @@ class Executor(object):
             c = regs[c]
         if type(nv) is str:
             nv = regs[nv]
+        s.atomic_now = True
         old = s.load(st, a, n)
         e = X.eq(old, c, w)
         if type(e) is E:
+            s.atomic_now = False
             e = 1 if s.need_int(st, e) else 0
+            s.atomic_now = True
         if e:
             s.store(st, a, nv, n)
+        s.atomic_now = False
         regs[dst] = [old, e]
 
     # ------------------------------------------------------------------ calls
@@ -1321,7 +1454,7 @@ class Executor(object):
         if normal is not None:
             s.goto(fr, normal)
             return True
-        if th.status != 'run' or st.switch:
+        if th.status != 'run' or st.switch or st.preempt_pending:
             fr.ip += 1
             return True
         return None
